@@ -124,7 +124,7 @@ func emitFontLevel(b *bytes.Buffer, all []*pkgInfo) {
 			for _, u := range p.units {
 				fresh := map[*ast.Object]bool{} // locals bound to a fresh composite literal / new(T)
 				ast.Inspect(u.body, func(n ast.Node) bool {
-					if a, ok := n.(*ast.AssignStmt); ok && a.Tok == token.DEFINE && len(a.Lhs) == len(a.Rhs) {
+					if a, ok := n.(*ast.AssignStmt); ok && (a.Tok == token.DEFINE || a.Tok == token.ASSIGN) && len(a.Lhs) == len(a.Rhs) {
 						for i, r := range a.Rhs {
 							e := r
 							if ue, ok := e.(*ast.UnaryExpr); ok && ue.Op == token.AND {
@@ -143,9 +143,30 @@ func emitFontLevel(b *bytes.Buffer, all []*pkgInfo) {
 					}
 					return true
 				})
+				// bodies of `x.once.Do(func(){…})`: lazily built, synchronised by the once
+				onceBodies := []*ast.FuncLit{}
+				ast.Inspect(u.body, func(n ast.Node) bool {
+					if c, ok := n.(*ast.CallExpr); ok && len(c.Args) == 1 {
+						if f, ok := c.Fun.(*ast.SelectorExpr); ok && f.Sel.Name == "Do" {
+							if fl, ok := c.Args[0].(*ast.FuncLit); ok {
+								onceBodies = append(onceBodies, fl)
+							}
+						}
+					}
+					return true
+				})
 				add := func(sel *ast.SelectorExpr, kind string, at ast.Node) {
+					if id, _ := rootIdent(sel.X); id != nil && id.Obj != nil && fresh[id.Obj] {
+						return // the object was allocated in this function: construction, not mutation
+					}
+					sy := syncT{"none", ""}
+					for _, fl := range onceBodies {
+						if fl.Pos() <= at.Pos() && at.End() <= fl.End() {
+							sy = syncT{"once", "field"}
+						}
+					}
 					for _, ff := range cont[sel.Sel.Name] {
-						ff.writes = append(ff.writes, site{fn: p.name + "." + u.display, pos: p.pos(at), kind: kind, sync: syncT{"none", ""}})
+						ff.writes = append(ff.writes, site{fn: p.name + "." + u.display, pos: p.pos(at), kind: kind, sync: sy})
 					}
 				}
 				selOf := func(e ast.Expr) *ast.SelectorExpr {
@@ -177,9 +198,7 @@ func emitFontLevel(b *bytes.Buffer, all []*pkgInfo) {
 									add(s, "elem", l)
 								}
 							} else if s := selOf(l); s != nil {
-								if id, _ := rootIdent(s.X); id == nil || id.Obj == nil || !fresh[id.Obj] {
-									add(s, "assign", l)
-								}
+								add(s, "assign", l)
 							}
 						}
 					case *ast.CallExpr:
@@ -216,6 +235,59 @@ func emitFontLevel(b *bytes.Buffer, all []*pkgInfo) {
 	fmt.Fprintf(b, "/-- roots of the font-level state (what a loaded font shares between all layouts) -/\ndef fontRoots : List String := [%s]\n\n", strings.Join(rs, ", "))
 	fmt.Fprintf(b, "/-- struct types of the analysed packages reachable from the roots through field types -/\ndef fontLevelTypes : List String := %s\n\n", qs(ts))
 	fmt.Fprintf(b, "/-- every field of these types; for container fields (map, sync.Map, sync.Pool, chan) the sites that\nmutate the container after construction (matched by field name) -/\ndef fontLevelFields : List FieldFact := [\n  %s]\n\n", strings.Join(ls, ",\n  "))
+	// `&(*e)`: looks like a copy, is the same pointer
+	var al []string
+	// functions of the dependency that mutate a container field of a font-level type, or contain an alias copy
+	mut := map[string]bool{}
+	for _, f := range fields {
+		for _, w := range f.writes {
+			if w.sync.kind != "once" {
+				mut[w.fn] = true
+			}
+		}
+	}
+	for _, p := range all {
+		for _, u := range p.units {
+			ast.Inspect(u.body, func(n ast.Node) bool {
+				if ue, ok := n.(*ast.UnaryExpr); ok && ue.Op == token.AND {
+					e := ue.X
+					if pe, ok := e.(*ast.ParenExpr); ok {
+						e = pe.X
+					}
+					if _, ok := e.(*ast.StarExpr); ok {
+						al = append(al, fmt.Sprintf("⟨%s, %s, %s, .none⟩", q(p.name+"."+u.display), q(p.pos(n)), q(p.render(n))))
+						mut[p.name+"."+u.display] = true
+					}
+				}
+				return true
+			})
+		}
+	}
+	fmt.Fprintf(b, "/-- expressions `&(*e)`: written like a copy, but the same pointer (the receiver's table is then\nmodified through the alias) -/\ndef aliasCopies : List Site := [\n  %s]\n\n", strings.Join(al, ",\n  "))
+	// call sites in canvas and its sub-packages of methods with the NAME of such a function
+	names := map[string]bool{}
+	for fn := range mut {
+		if strings.HasPrefix(fn, "font.") {
+			names[fn[strings.LastIndex(fn, ".")+1:]] = true
+		}
+	}
+	var cs []string
+	for _, p := range all {
+		if p.name == "font" {
+			continue
+		}
+		for _, u := range p.units {
+			ast.Inspect(u.body, func(n ast.Node) bool {
+				if c, ok := n.(*ast.CallExpr); ok {
+					if f, ok := c.Fun.(*ast.SelectorExpr); ok && names[f.Sel.Name] {
+						cs = append(cs, fmt.Sprintf("⟨%s, %s, %s, .none⟩", q(p.name+"."+u.display), q(p.pos(c)), q(p.render(c.Fun))))
+					}
+				}
+				return true
+			})
+		}
+	}
+	fmt.Fprintf(b, "/-- calls from canvas and its sub-packages to methods named like a dependency function that mutates\nfont-level state (container write outside a once body, or alias copy) -/\ndef fontMutatorCalls : List Site := [\n  %s]\n\n", strings.Join(cs, ",\n  "))
 	fmt.Fprintln(b, "end Canvas.FactsC20")
 }
 
@@ -225,7 +297,11 @@ func leanSitesRaw(l []site) string {
 	}
 	var r []string
 	for _, s := range l {
-		r = append(r, fmt.Sprintf("⟨%s, %s, %s, .none⟩", q(s.fn), q(s.pos), q(s.kind)))
+		sy := ".none"
+		if s.sync.kind == "once" {
+			sy = "(.once \"field\")"
+		}
+		r = append(r, fmt.Sprintf("⟨%s, %s, %s, %s⟩", q(s.fn), q(s.pos), q(s.kind), sy))
 	}
 	return "[" + strings.Join(r, ", ") + "]"
 }
